@@ -346,7 +346,10 @@ impl CheckReport {
     pub fn new(level: &'static str, rule: &str) -> Self {
         CheckReport {
             level,
-            rule: rule.to_string(),
+            rule: format!(
+                "{} Parts named large-* / rich-* / long-* / huge-* / positions-* / lcs-beyond-* (where present) are ENUMERATED families of big or unusual inputs run through the same oracle: complete over their fixed list, not exhaustive over all inputs of that size; the 'exhaustive' flag refers to complete enumeration of every listed space.",
+                rule
+            ),
             assumptions: vec![],
             parts: vec![],
             extra: Map::new(),
